@@ -478,7 +478,7 @@ func main() {
 		mk := func(p params) sx.Scenario[params] {
 			fb := 2
 			if c.Thorough() {
-				fb = 4
+				fb = 3
 			}
 			return sx.Scenario[params]{Name: "reconnect", Params: p, MaxSteps: 20000, FreeBound: fb, Body: body, Check: check}
 		}
@@ -491,10 +491,7 @@ func main() {
 			sx.Explore(c, cmk(cscs[0]), 0, 0, 1)
 			return
 		}
-		bound := 1
-		if c.Thorough() {
-			bound = 2
-		}
+		bound := 1 // (thorough widens the free-choice bound instead of the preemption bound: executions are long)
 		c.Rule("real telegram.Client (Run, reconnectUntilClosed, runUntilRestart, replaceConn, invokeConn), real manager.Conn and rpc.Engine (all instrumented); "+
 			"the MTProto layer is a stand-in with a scripted server; faults: the first connection is lost {after the request was transmitted, after its ack "+
 			"completed, at any time, never} x server {silent, ack only, answers} x client close {none, any time, after the loss} x 1-2 concurrent calls; every "+
